@@ -510,6 +510,7 @@ std::vector<Violation> check_all(Sim& s, const std::string& only) {
     Ctx c(s, only);
     // protocol oracles assume a legitimate broker; in hostile runs only the oracles that stay meaningful are evaluated
     if (s.plan.knobs.focus.rfind("C20x:", 0) == 0) { c.c20x(); c.c05(); return c.out; }
+    if (s.plan.knobs.focus == "C11x") { c.c11x(); return c.out; }
     if (s.plan.knobs.focus == "C08x") {
         // identifier exhaustion / leak scenarios: tens of thousands of operations; only the oracles that scale are run
         c.c05(); c.c08(); c.c17();
